@@ -32,14 +32,32 @@ def extract():
              "MSG_CONNECTOK": protocol.MSG_CONNECTOK, "MSG_CONNECTFAIL": protocol.MSG_CONNECTFAIL, "MSG_RESULT": protocol.MSG_RESULT}
 
     def accepted(fn_name):
-        tree = ast.parse(open(server.__file__).read())
-        cls = [n for n in tree.body if isinstance(n, ast.ClassDef) and n.name == "Daemon"][0]
-        fn = [n for n in cls.body if isinstance(n, ast.FunctionDef) and n.name == fn_name][0]
-        for node in ast.walk(fn):
-            if isinstance(node, ast.Call) and getattr(node.func, "attr", "") == "recv_stub":
-                lst = node.args[1]
-                return [names[e.attr] for e in lst.elts]
-        raise ValueError("recv_stub call not found in " + fn_name)
+        """the message types the real Daemon.<fn_name> asks recv_stub for - observed by calling it with a spy in place of
+        protocol.recv_stub (a literal list, a tuple, a module-level constant: all the same)"""
+        import shutil
+        import tempfile
+        from Pyro5 import errors
+        seen = []
+        orig = protocol.recv_stub
+
+        def spy(conn, accepted_msgtypes=None):
+            seen.append(None if accepted_msgtypes is None else [int(t) for t in accepted_msgtypes])
+            raise errors.ConnectionClosedError("probe")
+        tmp = tempfile.mkdtemp(prefix="c08probe")
+        d = server.Daemon(unixsocket=os.path.join(tmp, "s"))
+        protocol.recv_stub = spy
+        try:
+            try:
+                getattr(d, fn_name)(object())
+            except errors.ConnectionClosedError:
+                pass
+        finally:
+            protocol.recv_stub = orig
+            d.close()
+            shutil.rmtree(tmp, ignore_errors=True)
+        if len(seen) != 1 or seen[0] is None:
+            raise ValueError("%s: expected one recv_stub call with an explicit list of message types, saw %r" % (fn_name, seen))
+        return seen[0]
 
     def handshake_ifs(fn):
         """`if <daemon>._handshake(..):` or `x = <daemon>._handshake(..)` (assigned once) followed by `if x:`"""
@@ -78,8 +96,13 @@ def extract():
         ifs = handshake_ifs(hc)
         ev = [n for n in cls.body if isinstance(n, ast.FunctionDef) and n.name == "events"][0]
         regs = [n for n in ast.walk(ev) if isinstance(n, ast.Call) and getattr(n.func, "attr", "") == "register"]
-        guarded = [n for n in ast.walk(ev) if isinstance(n, ast.If) and isinstance(n.test, ast.Name) and n.test.id == "conn"
-                   and any(r in list(ast.walk(n)) for r in regs)]
+        is_hcall = lambda e: isinstance(e, ast.Call) and getattr(e.func, "attr", "") == "_handleConnection"
+        from_hc = {n.targets[0].id for n in ast.walk(ev) if isinstance(n, ast.Assign) and len(n.targets) == 1
+                   and isinstance(n.targets[0], ast.Name) and is_hcall(n.value)}
+        # `conn = self._handleConnection(..); if conn: register(conn..)`  or  `if conn := self._handleConnection(..): register(conn..)`
+        guarded = [n for n in ast.walk(ev) if isinstance(n, ast.If) and any(r in list(ast.walk(n)) for r in regs)
+                   and ((isinstance(n.test, ast.Name) and n.test.id in from_hc)
+                        or (isinstance(n.test, ast.NamedExpr) and is_hcall(n.test.value)))]
         return len(rets) == 1 and len(ifs) == 1 and rets[0] in ifs[0].body and len(regs) == 1 and len(guarded) == 1
 
     ids = sorted(serializers.serializers_by_id.keys())
@@ -139,8 +162,9 @@ def translate_except_rule(server):
         raise ValueError("except-rule: unrecognised condition " + ast.unparse(e))
 
     assigned = {}
-    for n in ast.walk(handler[0]):
-        if isinstance(n, ast.Assign) and len(n.targets) == 1 and isinstance(n.targets[0], ast.Name):
+    for n in ast.walk(fn):
+        if isinstance(n, ast.Assign) and len(n.targets) == 1 and isinstance(n.targets[0], ast.Name) \
+                and not isinstance(n.value, ast.Constant):          # (`x = 0` beside `request_flags = 0` is an initialiser)
             assigned.setdefault(n.targets[0].id, []).append(n.value)
     local_defs = {k: v[0] for k, v in assigned.items() if len(v) == 1 and isinstance(v[0], (ast.BoolOp, ast.UnaryOp, ast.Call, ast.BinOp, ast.Compare))
                   and k not in ("isCallback",)}
